@@ -85,7 +85,7 @@ int RecipEntry::SetDividend(const char *scale)
     r = gd_alter_entry(D->D, E.field, &E, 0);
 
     if (!r) {
-      r = gd_get_constant(D->D, scale, GD_COMPLEX128, &E.u.recip.cdividend);
+      r = gd_cxx_get_scalar(D->D, scale, GD_COMPLEX128, &E.u.recip.cdividend);
       E.u.recip.dividend = E.u.recip.cdividend[0];
     }
   }
